@@ -255,13 +255,14 @@ Str remove_dots(const Str& path, bool rooted) {
 static void copy_auth(Comp& t, const Comp& s) {
     t.hasAuth = s.hasAuth; t.hasUser = s.hasUser; t.user = s.user; t.hostKind = s.hostKind; t.host = s.host; t.ip = s.ip; t.hasPort = s.hasPort; t.port = s.port;
 }
-bool resolve(const Comp& B, const Comp& Rin, bool compat, Comp* out, bool guard) {
+bool resolve(const Comp& B, const Comp& Rin, bool compat, Comp* out, bool guard, Str* rootlessBeforeRemoval) {
     if (!B.hasScheme) return false;
     Comp R = Rin; Comp T; bool rooted = true;      // was the path rooted before dot removal (decides the form of the guard)
     if (compat && R.hasScheme && R.scheme == B.scheme) { R.hasScheme = false; R.scheme.clear(); }
     if (R.hasScheme) {
         T.hasScheme = true; T.scheme = R.scheme; copy_auth(T, R);
         rooted = R.hasAuth || starts(R.path, "/");
+        if (!rooted && rootlessBeforeRemoval) *rootlessBeforeRemoval = R.path;
         T.path = remove_dots(R.path, rooted);
         T.hasQuery = R.hasQuery; T.query = R.query;
     } else {
@@ -279,6 +280,7 @@ bool resolve(const Comp& B, const Comp& Rin, bool compat, Comp* out, bool guard)
                     if (B.hasAuth && B.path.empty()) merged = "/" + R.path;
                     else { size_t p = B.path.rfind('/'); merged = (p == Str::npos ? Str() : B.path.substr(0, p + 1)) + R.path; }
                     rooted = starts(merged, "/");
+                    if (!rooted && rootlessBeforeRemoval) *rootlessBeforeRemoval = merged;
                     T.path = remove_dots(merged, rooted);
                 }
                 T.hasQuery = R.hasQuery; T.query = R.query;
